@@ -72,7 +72,6 @@ INITIAL = {1: 10, 2: 20}
 # s: `list(Cls.select())` inside the body (a read through the transaction)
 ALPHABET = ['c3', 'c1', 'u1', 'd1', 'u2', 'U1', 'D2', 's']
 K_STALE_RB = 'C08:stale-after-rollback:preloaded-instance-assigned-in-body'
-K_STALE_NC = 'C08:stale-after-commit:cache-false-tx-instance-collected'
 DUP_ID, NF_ID = 1000001, 1000002
 _env = {}
 
@@ -484,7 +483,7 @@ def gen_cases(ctx):
                         continue
                     sel = [(combos[n % 12], modes[(n // 12) % 2])]
                 for i, ((cfg, ac), mode) in enumerate(sel):
-                    for var in (variants if ln <= 1 else [variants[(n + i) % 4]]):
+                    for var in (variants if ln == 0 else [variants[(n + i) % 4]]):
                         cases.append((cfg, ac, mode, word, ra, kind, var))
     # grouped by variant and configuration so that the hub is re-bound rarely
     order = {c: i for i, c in enumerate(combos)}
@@ -616,15 +615,9 @@ def run_case(ctx, e, case, idx, model_out):
     def assigned(k):
         vals = [vv for (op, kk, vv) in steps[:executed] if op == 'U' and kk == k]
         return vals[-1] if vals else None
-    def collected(k):
-        # cache=False: the instance the body fetched with get() and did not keep is gone before commit looks for it
-        return var[0] == '0' and want_exc is None and any(op == 'u' and kk == k for (op, kk, _) in steps[:executed])
     for k, v in sorted(held.items()):
         if v != rows2.get(k):
-            if collected(k):
-                known_once(ctx, 'after the committed doInTransaction on a cache=False connection the instance of row %d held from '
-                           'before the call shows %s; the row holds %s' % (k, v, rows2.get(k)), desc, K_STALE_NC)
-            elif want_exc is not None and assigned(k) is not None and v == assigned(k):
+            if want_exc is not None and assigned(k) is not None and v == assigned(k):
                 known_once(ctx, 'after the rolled-back doInTransaction the instance of row %d that the body assigned to still '
                            'shows %s; the row holds %s' % (k, v, rows2.get(k)), desc)
             else:
@@ -632,10 +625,7 @@ def run_case(ctx, e, case, idx, model_out):
                                 'by %s) shows %s on the restored connection; the row holds %s' % (k, mode, v, rows2.get(k)), desc)
     for k, v in sorted(fresh.items()):
         if v != rows2.get(k):
-            if collected(k):
-                known_once(ctx, 'after the committed doInTransaction on a cache=False connection get(%d) shows %s; the row holds %s'
-                           % (k, v, rows2.get(k)), desc, K_STALE_NC)
-            elif want_exc is not None and assigned(k) is not None and v == assigned(k):
+            if want_exc is not None and assigned(k) is not None and v == assigned(k):
                 known_once(ctx, 'after the rolled-back doInTransaction get(%d) on the restored connection shows %s; the row '
                            'holds %s' % (k, v, rows2.get(k)), desc)
             else:
